@@ -224,7 +224,7 @@ func (c *gctx) expr(depth int, consuming bool) *Expr {
 			if consuming && !c.cfg.NullableLoops {
 				continue
 			}
-			if c.cfg.NullableLoops && c.chance(1, 5) {
+			if c.cfg.NullableLoops && c.chance(1, 3) {
 				// a repetition directly over something that matches without consuming
 				k := Star
 				if c.chance(1, 3) {
@@ -462,6 +462,35 @@ func (c *gctx) seqItem(depth int) *Expr {
 func Generate(r Rand, cfg Config) *Grammar {
 	for attempt := 0; attempt < 200; attempt++ {
 		g := generateOnce(r, cfg)
+		if cfg.NullableLoops && cfg.Preds && !cfg.LeftRec && r.Intn(3) == 0 {
+			// a repetition that consumes nothing and still ends, because its body asks
+			// user code whether to go on (indentation stacks, pending tokens): put in
+			// front of the start rule, where every input reaches it
+			pk := AndCode
+			if r.Intn(3) == 0 {
+				pk = NotCode
+			}
+			var body *Expr
+			switch r.Intn(4) {
+			case 0:
+				body = &Expr{Kind: pk}
+			case 1:
+				body = &Expr{Kind: Seq, Subs: []*Expr{{Kind: pk}, {Kind: Opt, Subs: []*Expr{{Kind: Lit, Text: "\x00"}}}}}
+			case 2:
+				body = &Expr{Kind: Seq, Subs: []*Expr{{Kind: Lit, Text: ""}, {Kind: pk}}}
+			default:
+				body = &Expr{Kind: Seq, Subs: []*Expr{{Kind: And, Subs: []*Expr{{Kind: Any}}}, {Kind: pk}}}
+			}
+			k := Star
+			if r.Intn(3) == 0 {
+				k = Plus
+			}
+			loop := &Expr{Kind: k, Subs: []*Expr{body}}
+			if k == Plus {
+				loop = &Expr{Kind: Opt, Subs: []*Expr{loop}}
+			}
+			g.Rules[0].Expr = &Expr{Kind: Seq, Subs: []*Expr{loop, g.Rules[0].Expr}}
+		}
 		g.Finish()
 		if cfg.LeftRec || cfg.FreeRefs {
 			return g
